@@ -130,6 +130,15 @@ def check(R, F, P, cfg):
             det += "; uses of the box after the free: %s" % (users or "none")
             R.inst("R3.2", "free-order:%s" % rootf.npath, ok, det, where=n.where(), cfg=cfg)
     R.floor("R3.2", cfg, 3 + (1 if weak else 0), nfree)
+    if weak:
+        for (f, bb, ci) in P.call_sites(lambda c: c["npath"] == CCBOX + "drop_metadata"):
+            rootf = P.fns[f.root] if f.kind == "closure" else f
+            Sx = Super(P, rootf, opaque=DO - {rootf.npath})
+            for n in [x for x in Sx.calls_to(CCBOX + "drop_metadata") if x.ctx.fn is f and x.bb == bb]:
+                box = obj_of(Sx.args_of(n)[0])
+                frees = [x for x in Sx.calls_to("utils::cc_dealloc") if obj_of(Sx.args_of(x)[0]) == box]
+                ok, wit = Sx.must_pass(n, lambda x: x in frees, Sx.returns, exclude=("ui", "u"), avoid_labels=("skip",))
+                R.inst("R3.2", "drop_metadata-implies-free:%s" % rootf.npath, ok and bool(frees), "every normal path after drop_metadata(%s) frees that box (%d cc_dealloc sites): %s - marking the side record inaccessible / releasing it for a box that stays alive makes its Weaks die early or dangle" % (fmt(box)[:50], len(frees), ok), where=n.where(), cfg=cfg)
 
     # ---- R3.3 drop before free ---------------------------------------------------------------------------------------
     R.doc("R3.3", "Cc::drop: the payload drop dominates cc_dealloc and every normal path from it reaches cc_dealloc; deallocate_list: the destructor pass dominates the freeing pass, "
@@ -144,6 +153,8 @@ def check(R, F, P, cfg):
         box_d = obj_of(S.args_of(d)[0])
         same = all(obj_of(S.args_of(x)[0]) == box_d for x in fr)
         R.inst("R3.3", "rc-drop-then-free", ok1 and ok2 and same, "payload drop dominates cc_dealloc=%s; cc_dealloc on every normal path after it=%s; same box=%s" % (ok1, ok2, same), where=d.where(), cfg=cfg)
+        rm = [x for x in S.calls_to("cc::remove_from_list") if obj_of(S.args_of(x)[0]) == box_d and S.dominates(x, d, exclude=("ui", "u"))]
+        R.inst("R3.3", "rc-unbuffered-before-drop", bool(rm), "remove_from_list(self) %s the payload drop in Cc::drop (a destructor that starts a collection would otherwise find the box buffered with count 0: second drop, second free)" % ("dominates" if rm else "does NOT dominate"), where=d.where(), cfg=cfg)
     R.floor("R3.3/rc", cfg, 1, len(pd))
     dl = anchor(F, "deallocate_list")
     S = Super(P, dl, opaque=DO - {dl.npath})
